@@ -16,7 +16,7 @@ func binCase(f *evid.Flags, idx int, c08 bool, hits *[9]map[string]int) *gen.Pro
 	r := rng.New(f.Seed, 0xc089, uint64(idx))
 	g := &gen.G{R: r, Hits: hits}
 	g.V = gen.V{R: r, Big: r.Chance(1, 25)}
-	g.P = gen.Profile{Modelled: true, MaxDepth: 3, CustomIface: !c08}
+	g.P = gen.Profile{Modelled: true, MaxDepth: 3, CustomIface: true}
 	if f.Thorough() {
 		g.P.MaxDepth = 5
 	}
